@@ -1895,6 +1895,18 @@ class RedunBackendDb(RedunBackend):
                 for task in subtree_tasks:
                     session.add(CallSubtreeTask(call_hash=call_hash, task_hash=task.hash))
                 session.commit()
+
+            elif (
+                not session.query(CallSubtreeTask.call_hash).filter_by(call_hash=call_hash).first()
+            ):
+                # The CallNode was transferred from another repository, which does not carry the
+                # subtree tasks. Record them now that the call has been evaluated here.
+                subtree_tasks = list(subtree_tasks)
+                for task in subtree_tasks:
+                    self.record_value(task)
+                for task in subtree_tasks:
+                    session.add(CallSubtreeTask(call_hash=call_hash, task_hash=task.hash))
+                session.commit()
         return call_hash
 
     @db_retry
@@ -2504,10 +2516,13 @@ class RedunBackendDb(RedunBackend):
         for pair in call_task_pairs:
             call_node2task_hashes[pair.call_hash].add(pair.task_hash)
 
+        # A CallNode without any recorded subtree tasks (e.g. imported from another repository)
+        # tells us nothing about the code it depends on, so it cannot be considered current.
         current_call_nodes = [
             call_node
             for call_node in call_nodes
-            if call_node2task_hashes[call_node.call_hash] <= scheduler_task_hashes
+            if call_node2task_hashes[call_node.call_hash]
+            and call_node2task_hashes[call_node.call_hash] <= scheduler_task_hashes
         ]
 
         if current_call_nodes:
